@@ -9,10 +9,10 @@ import (
 
 // TxOutcome is what the statements require of one DeliverTx.
 type TxOutcome struct {
-	AnteOK    bool   // passes the ante handler (fee is paid)
-	OK        bool   // message succeeds
-	Unjudged  bool   // statements do not decide success (e.g. governance messages: see C17)
-	Why       string // reason for the expected rejection
+	AnteOK   bool   // passes the ante handler (fee is paid)
+	OK       bool   // message succeeds
+	Unjudged bool   // statements do not decide success (e.g. governance messages: see C17)
+	Why      string // reason for the expected rejection
 }
 
 // SpecDeliverTx applies a correctly signed, well-formed transaction of the given spec.
